@@ -215,5 +215,29 @@ def run(ctx):
                what=f'{r.rsplit("::", 1)[-1]} retires the row-sets of a table without holding its deletion/compaction lock: a compaction in '
                     'flight commits afterwards (AddRowSet for a dropped table, duplicate DeleteRowSet) and the database cannot be reopened')
 
+    R7 = 'C09-R7'
+    ctx.rule(R7, 'deleters and the compactor contend for ONE mutex per table: every function of TransactionManager that locks (lock_owned / '
+                 'try_lock_owned) takes the mutex from the resolver that stores it in the lock map (HashMap::entry + or_insert_with); a '
+                 'mutex that is created on the fly and not stored excludes nobody')
+    TM = SEC + 'transaction_manager::TransactionManager::'
+    tm = [b for b in prog.bodies.values() if b.name.startswith(TM)]
+    resolvers = {b.root for b in tm if any(re.search(r'hash_map::Entry::<.*>::or_insert', c.name or '') for g in prog.group(b.root) for c in g.calls)}
+    n_lock = 0
+    for b in tm:
+        locks = [c for c in b.calls if re.search(r'tokio::sync::Mutex::<T>::(lock_owned|try_lock_owned|lock|try_lock)$', c.fn or '')]
+        for c in locks:
+            n_lock += 1
+            ctx.functions_analysed.add(b.name)
+            src = origin_locals(b, c.args[0]['pl']['l'], depth=6) if c.args and c.args[0]['k'] != 'const' else set()
+            from_resolver = any(k.dest['l'] in src and any(prog.bodies[n].root in resolvers for n in prog.callee_bodies(k)) for k in b.calls)
+            ctx.ob(R7, f'{b.root.rsplit("::", 1)[-1]}·locks-the-stored-mutex', from_resolver,
+                   f'{b.name}: the mutex locked at block {c.bb} ' + ('comes from the storing resolver' if from_resolver else
+                                                                       'does not come from the resolver that stores it in lock_map'),
+                   [site(b, c.bb)],
+                   what=f'TransactionManager::{b.root.rsplit("::", 1)[-1]} may lock a mutex that is not the one stored in the lock map: the '
+                        'first compaction of a table and a concurrent DELETE then hold different mutexes and run together')
+    ctx.floor(R7, n_lock, 2, 'mutex acquisitions in TransactionManager')
+    ctx.anchor(R7, 'TransactionManager: resolver that stores the mutex', resolvers)
+
     from rules.c07 import compaction_touches_only_what_it_merged
     compaction_touches_only_what_it_merged(ctx, prog, 'C09-R5')
